@@ -85,6 +85,21 @@ fn main() {
         }
     });
 
+    // large u4-counted payloads (unknown attributes at every level, SourceDebugExtension): "unrecognised attributes byte-for-byte"
+    let nlarge = ctx.tier.pick(160, 6_000);
+    run_cases(&ctx, &replay, &mut rep, "large-payload", nlarge, |rng, rep, _| {
+        let small = gen::GenCfg { max_fields: 2, max_methods: 2, max_insns: 10, ..gen::GenCfg::default() };
+        let mut m = gen::gen_class(rng, &small);
+        let (at, size) = gen::add_large_payload(rng, &mut m);
+        let layout = if rng.bool() { emit::Layout::canonical() } else { emit::Layout::random(rng.next_u64()) };
+        let Ok(bytes) = emit::emit(&m, &layout) else { rep.count("emit.skipped"); return; };
+        match parse::parse(&bytes) { Ok(p) if p == m => {}, other => { eprintln!("HARNESS-ERROR parse(emit(M)) != M for a large payload ({at}, {size}): {:?}", other.err()); std::process::exit(3); } }
+        rep.eval(); rep.count(&format!("large.{at}")); if size > 65_536 { rep.count("large.over_65536"); }
+        rep.seen("large_payload_sizes", &size.to_string());
+        rep.nontrivial(common::rng::fnv_str(&format!("large {at} {size}")));
+        judge(rep, &format!("generated with a {size}-byte payload at {at}"), &m, &bytes, "large payload");
+    });
+
     let corpus = cf::corpus::load(&ctx.verif_dir);
     let corpus_n = corpus.len() as u64;
     run_cases(&ctx, &replay, &mut rep, "corpus", corpus_n, |_rng, rep, i| {
@@ -120,6 +135,7 @@ fn main() {
         meta.oblige("pool indices pushed over 255 in some layout", rep.get("layouts.pool_over_255") > 0);
         meta.oblige("corpus classes were read", rep.get("corpus.classes") >= 100);
         meta.oblige("locals in all three index classes", rep.seen_n("local") >= 3);
+        meta.oblige("attribute payloads larger than 65536 bytes were read at class, field, method and Code level and as SourceDebugExtension", rep.get("large.over_65536") >= 30 && ["large.class.unknown", "large.class.source_debug_extension", "large.field.unknown", "large.method.unknown", "large.code.unknown"].iter().all(|k| rep.get(k) > 0));
     }
     std::process::exit(finish(&ctx, rep, meta));
 }
